@@ -37,6 +37,24 @@ Proof.
 Qed.
 Print Assumptions C15_history_independent.
 
+(* reading a memo table: in every state reachable by any history, a cache hit returns exactly
+   what a miss would compute (the PureCache cells are handled by what reads of them return,
+   not only by their classification) *)
+Theorem C15_cache_hit_equals_miss :
+  forall (I O value key : Type) (key_eqb : key -> key -> bool),
+    (forall a b, key_eqb a b = true -> a = b) ->
+  forall (kl : string -> klass) (ws : list string) K W F keyof T L init (out_fn : I -> (string -> value) -> O),
+    (forall c, In c ws -> kl c <> Leak) ->
+  forall (h : list I) c es k v,
+    kl c = PureCache ->
+    run I O value key key_eqb kl ws K W F keyof T L out_fn (g0 value key kl init) h c = Cache value key es ->
+    cache_get value key key_eqb es k = Some v -> v = F c k.
+Proof.
+  intros I O value key key_eqb Hk kl ws K W F keyof T L init out_fn Hnl h c es k v.
+  exact (cache_hit_equals_miss_reachable I O value key key_eqb Hk kl ws K W F keyof T L init out_fn Hnl h c es k v).
+Qed.
+Print Assumptions C15_cache_hit_equals_miss.
+
 (* the instance given by the regenerated table meets the premise: no cell written by the
    package is classified Leak (bound: the n_writes writes of the table) *)
 Theorem C15_table_has_no_leak : forall c, In c ws_table -> kl_table c <> Leak.
